@@ -393,22 +393,14 @@ fn declared_ids(value: &str) -> Vec<usize> {
     out
 }
 
-/// Mechanism of the remaining soundness / transitivity failures on recursive types (notes/C09.md).
-/// The verdict on each of `pairs` (all `true` in the table under test) is recomputed two ways:
-///
-/// * `T`: with the model's `checkRelT` — the code as it is, except that a resolved `Cycle` continues
-///   below the enclosing types of the boundary it points to. The code keeps the stack of the place
-///   where the back-reference stood; the boundary is then "already on the stack" and not pushed again,
-///   so the `Cycle`s inside it are counted from the wrong entry.
-/// * `U`: with the code as it is, on the tree unfolding of the table, where every occurrence of a type
-///   has an id of its own. Coinductive assumptions (and the tuple-id fast path) are keyed by the two
-///   ids alone, so a pair first met below one list of enclosing types is taken for settled when the
-///   same ids are met again below another list, where their `Cycle`s mean other types.
-///
-/// Neither change alters what the roots mean, so a checker that is right gives the same verdicts. A
-/// pair refused under `T` names the first mechanism, a pair refused under `U` (and not `T`) the
-/// second; `None` when both still accept every pair.
-fn mech_recursive(tbl: &Tbl, model: &mut TModel, names: &mut Names, pairs: &[(usize, usize)]) -> Option<&'static str> {
+/// Diagnostic for an unsound `true` / a non-transitive triple on recursive types (none is known since
+/// ecfc5db; a hit is a violation either way — this only says where to look). The verdicts are
+/// recomputed (model of the code as it is) on the tree unfolding of the table, where every occurrence
+/// of a type has an id of its own: coinductive assumptions (and the tuple-id fast path) are keyed by
+/// the two ids alone, so a pair first met below one list of enclosing types would be taken for settled
+/// when the same ids are met again below another list. The unfolding does not change what the roots
+/// mean; `true` when one of `pairs` is refused there.
+fn mech_id_sharing(tbl: &Tbl, model: &mut TModel, names: &mut Names, pairs: &[(usize, usize)]) -> bool {
     let mut roots: Vec<usize> = vec![];
     for (a, b) in pairs {
         for x in [*a, *b] {
@@ -417,25 +409,17 @@ fn mech_recursive(tbl: &Tbl, model: &mut TModel, names: &mut Names, pairs: &[(us
             }
         }
     }
-    let refused = |model: &mut TModel, which: &str, x: usize, y: usize| ask(model, &format!("(matrix {which} {x} {y})")).chars().nth(1) == Some('f');
-    let mut t_flips = false;
-    for (a, b) in pairs {
-        t_flips |= refused(model, "compatT", *a, *b);
-    }
-    if t_flips {
-        return Some("compat=resolved-cycle-keeps-inner-stack");
-    }
-    let (ut, img) = tbl.unshare(&roots, 600)?;
+    let Some((ut, img)) = tbl.unshare(&roots, 600) else { return false };
     let image = |x: usize| img[roots.iter().position(|r| *r == x).unwrap()];
-    let mut u_flips = false;
+    let mut flipped = false;
     if ask(model, &ut.sx(names)).starts_with("ok ") {
         for (a, b) in pairs {
-            u_flips |= refused(model, "compat", image(*a), image(*b)) || refused(model, "compatT", image(*a), image(*b));
+            flipped |= ask(model, &format!("(matrix compat {} {})", image(*a), image(*b))).chars().nth(1) == Some('f');
         }
     }
     // back to the table under test
     ask(model, &tbl.sx(names));
-    if u_flips { Some("compat=assumption-reused-under-other-enclosing-types") } else { None }
+    flipped
 }
 
 fn variants_of(tbl: &Tbl, id: usize) -> Vec<usize> {
@@ -899,8 +883,8 @@ fn run_table(ev: &mut Ev, model: &mut TModel, srv: &mut ImplServer, program: &Pr
                 ev.hit("oracle:compat-unsound");
                 let sig = if fo {
                     format!("compat-unsound:{cls}")
-                } else if let Some(m) = mech_recursive(&tbl, model, &mut names, &[(a, b)]) {
-                    m.to_string()
+                } else if mech_id_sharing(&tbl, model, &mut names, &[(a, b)]) {
+                    format!("compat-unsound:{cls} (recursive/higher-order; verdict depends on id sharing)")
                 } else {
                     format!("compat-unsound:{cls} (recursive/higher-order)")
                 };
@@ -959,9 +943,8 @@ fn run_table(ev: &mut Ev, model: &mut TModel, srv: &mut ImplServer, program: &Pr
                     let fo3 = [a, b, cc].iter().all(|i| classes.get(*i) == Some(&'f'));
                     let sig = if fo3 {
                         format!("compat-not-transitive:{}-{}-{}", tbl.kind(a), tbl.kind(b), tbl.kind(cc))
-                    } else if let Some(m) = mech_recursive(&tbl, model, &mut names, &[(a, b), (b, cc)]) {
-                        // one of the two premises is an unsound `true` of that mechanism
-                        m.to_string()
+                    } else if mech_id_sharing(&tbl, model, &mut names, &[(a, b), (b, cc)]) {
+                        format!("compat-not-transitive:{}-{}-{} (recursive/higher-order; verdict depends on id sharing)", tbl.kind(a), tbl.kind(b), tbl.kind(cc))
                     } else {
                         format!("compat-not-transitive:{}-{}-{} (recursive/higher-order)", tbl.kind(a), tbl.kind(b), tbl.kind(cc))
                     };
